@@ -52,12 +52,14 @@ package mcap
     requires offset >= 0
     ensures err == nil ==> newoffset >= offset + 4 && newoffset <= len(data)
     loop 1 invariant offset >= 4 && offset <= len(data) && inset >= 0 && inset <= len(data) - offset
+    loop 1 decreases [each-pair-consumes-at-least-8-bytes] {C10} len(data) - offset - inset
 @*/
 
 /*@ func ParseChunkIndex
     safety C10
     ensures r1 == nil ==> r0 != nil && fresh(r0)
     loop 1 invariant offset >= 0 && offset <= len(buf) && inset >= 0 && inset <= len(buf) - offset
+    loop 1 decreases [each-entry-consumes-10-bytes] {C10} len(buf) - offset - inset
 @*/
 
 /*@ func ParseStatistics
@@ -71,12 +73,14 @@ package mcap
     ensures [statistics-accepts-longer-records] {C11} len(buf) >= 46 && le32at(buf, 42) == 0 ==> r1 == nil
     loop 1 invariant [entries-come-from-the-declared-range] {C08 C11} start == 46 && offset >= 46 && offset <= 46 + channelMessageCountLength + 9 && channelMessageCountLength == le32at(buf, 42)
         && len(channelMessageCounts) >= 0 && len(channelMessageCounts) * 10 <= offset - 46
+    loop 1 decreases [each-entry-consumes-10-bytes] {C10} len(buf) - offset
 @*/
 
 /*@ func ParseMessageIndex
     safety C10
     ensures r1 == nil ==> r0 != nil && fresh(r0)
     loop 1 invariant offset >= 6 && offset <= len(buf) && start == 6 && len(records) * 16 == offset - 6 && cap(records) == (len(buf) - 2) / 16
+    loop 1 decreases [each-entry-consumes-16-bytes] {C10} len(buf) - offset
 @*/
 
 // ---------------------------------------------------------------------------------------------
@@ -558,6 +562,9 @@ package mcap
     ensures [a-successful-load-read-the-whole-chunk-record] {C02 C04 C12} err == nil ==> len(it.recordBuf) == chunkIndex.ChunkLength
     loop 1 invariant [slot-buffers-are-not-the-read-buffer] {C12 C20 C01} slotsPrivate(it)
     loop 2 invariant [slot-buffers-are-not-the-read-buffer] {C12 C20 C01} slotsPrivate(it)
+    loop 2 decreases [each-record-consumes-at-least-9-bytes] {C10} bufSize - offset
+    loop 2 invariant [slot-buffer-holds-exactly-the-declared-size] {C10 C20} len(it.chunkSlots[chunkSlotIndex].buf) == bufSize
+        && forall(k, startIdx, len(it.messageIndexes), it.messageIndexes[k].offset + 9 <= bufSize)
 @*/
 
 /*@ func (*indexedMessageIterator).NextInto
@@ -593,6 +600,7 @@ package mcap
     ensures [slot-buffers-are-not-the-read-buffer] {C12 C20 C01} r3 == nil ==> slotsPrivate(it)
     loop 1 invariant [slot-buffers-are-not-the-read-buffer] {C12 C20 C01} slotsPrivate(it)
     loop 2 invariant [slot-buffers-are-not-the-read-buffer] {C12 C20 C01} slotsPrivate(it)
+    loop 2 decreases [each-round-loads-a-chunk-or-returns] {C10} len(it.chunkIndexes) - it.curChunkIndex
 @*/
 
 /*@ func (*indexedMessageIterator).Next
